@@ -357,10 +357,10 @@ pub fn make_knobs(profile: Profile, rng: &mut Rng, thorough: bool) -> Knobs {
         Profile::Lifecycle => {
             k.n_lps = 3;
             k.n_traders = 1;
-        }
-        Profile::Lifecycle => {
             // both full-range-only spacings: exactly the threshold and above it
             k.spacing_choices = vec![1, 8, 64, 128, 32768, 32896];
+            // some life-cycle worlds on adaptive-fee pools (their fee tier index differs from the tick spacing)
+            k.adaptive_pct = *rng.pick(&[0u64, 0, 50, 100]);
         }
         Profile::TwoHop => {
             k.adaptive_pct = *rng.pick(&[0u64, 0, 40, 100]);
